@@ -14,3 +14,9 @@ def install(interp):
             interp.assumptions.add("textwrap.dedent of a symbolic string returns some string (content not modelled)")
             yield st, VStr(z3.String(fresh_name('dedent')))
     interp.models[textwrap.dedent] = m_dedent
+
+    import sqlite3
+
+    def m_binary(interp, st, args, kwargs):
+        yield st, args[0]       # sqlite3.Binary is memoryview: a view of the same bytes
+    interp.models[sqlite3.Binary] = m_binary
